@@ -36,6 +36,10 @@ def run_one(d: pathlib.Path):
         if r.returncode != 0:
             out['error'] = 'patch does not apply: ' + r.stderr[:300]
             return out
+        t = sh(['/venv/bin/python', '-m', 'pytest', '-q', '-p', 'no:cacheprovider', '--timeout=900',
+                '--continue-on-collection-errors'], cwd=str(wt))
+        m = re.search(r'(\d+) passed.*?(\d+) errors', t.stdout)
+        out['tests_on_mutant'] = m.group(0) if m else t.stdout[-200:]
         if (d / 'demo.py').exists():
             out['demo_on_mutant'] = sh(['/venv/bin/python', str(d / 'demo.py'), str(wt)]).returncode
             out['demo_on_repo'] = sh(['/venv/bin/python', str(d / 'demo.py'), '/repo']).returncode
